@@ -64,9 +64,11 @@ bool shake(configurable_t& solver, vt::Rng& rng, const int den = 3)
                                   auto hi = r.m_max - (closed(r.m_maxcomp) ? 0 : 1);
                                   // keep the sizes the property talks about (bundle 2..100) and run times sane
                                   hi = std::min<int64_t>(hi, std::max<int64_t>(lo, std::min<int64_t>(100, 4 * std::max<int64_t>(1, r.m_value))));
-                                  if (name == "lsearchk::max_iterations" && rng.coin())
+                                  if (name == "lsearchk::max_iterations")
                                   {
-                                      param = rng.pick(std::vector<int64_t>{1, 2, 3, 5, 10, 40, 1000, 10000});
+                                      // the whole domain [1, 10000]: with a handful of iterations the line searches fail routinely (a failed
+                                      // search must then leave the solver at a point that is not worse than the current one)
+                                      param = rng.coin() ? rng.pick(std::vector<int64_t>{1, 2, 3, 5, 10, 19, 20, 40, 128, 1000, 10000}) : rng.range(1, 200);
                                   }
                                   else
                                   {
